@@ -140,23 +140,84 @@ def audit_axioms(pid, theorems, imports):
 
 # ----------------------------------------------------------------------------- running scripts
 
+# a driver process that produces no output for this long is stuck in the operation it is executing (a hang is an observation, like a panic)
+STALL_S = float(os.environ.get("VERIF_STALL_S", "90"))
+
+
+def _run_driver(ops_path, out_path, first, last, stall=None):
+    """run the driver on lines [first, last) of ops_path; returns (observations, hung)"""
+    import select
+    with open(ops_path) as f:
+        chunk = "".join(f.readlines()[first:last])
+    with open(out_path, "wb") as fout:
+        p = subprocess.Popen([DRIVER_BIN], stdin=subprocess.PIPE, stdout=fout, stderr=subprocess.DEVNULL,
+                             env=dict(os.environ, VPNCLOUD_VERIF="1"))
+        import threading
+
+        def feed():
+            try:
+                p.stdin.write(chunk.encode())
+                p.stdin.close()
+            except (BrokenPipeError, OSError):
+                pass
+        th = threading.Thread(target=feed, daemon=True)
+        th.start()
+        last_size, last_change, hung = -1, time.time(), False
+        while True:
+            try:
+                p.wait(timeout=0.5 if last_size < 0 else 2.0)
+                break
+            except subprocess.TimeoutExpired:
+                size = os.path.getsize(out_path)
+                if size != last_size:
+                    last_size, last_change = size, time.time()
+                elif time.time() - last_change > (stall or STALL_S):
+                    hung = True
+                    p.kill()
+                    p.wait()
+                    break
+    data = open(out_path, "rb").read().decode("utf-8", "replace")
+    out = data.split("\n")
+    if out and out[-1] == "":
+        out.pop()
+    elif out and hung:
+        out.pop()          # an incomplete last line
+    return out, hung, p.returncode
+
+
 def run_impl(lines, workdir, tag="impl"):
     """Feed operation lines to the real code (driver inside the vpncloud binary)."""
     os.makedirs(workdir, exist_ok=True)
     ops = os.path.join(workdir, tag + ".ops")
     with open(ops, "w") as f:
         f.write("\n".join(lines) + "\n")
-    with open(ops) as fin:
-        p = subprocess.run([DRIVER_BIN], stdin=fin, stdout=subprocess.PIPE, stderr=subprocess.PIPE,
-                           env=dict(os.environ, VPNCLOUD_VERIF="1"), text=True)
-    out = p.stdout.split("\n")
-    if out and out[-1] == "":
-        out.pop()
-    if p.returncode != 0 or len(out) != len(lines):
-        # the process died (abort, stack overflow, allocation failure): report what we have
-        out = out + ["crash rc=%s" % p.returncode] * (len(lines) - len(out))
-        out = out[: len(lines)]
-    return out
+    result = []
+    first = 0
+    hangs = 0
+    while first < len(lines):
+        if hangs >= 3:
+            # enough evidence; do not spend the stall time on every remaining script
+            result += ["skipped-after-hang"] * (len(lines) - first)
+            break
+        out, hung, rc = _run_driver(ops, os.path.join(workdir, tag + ".out"), first, len(lines), None if hangs == 0 else min(STALL_S, 5.0))
+        n = len(lines) - first
+        if hung and len(out) < n:
+            hangs += 1
+            # the operation after the last answered one never returned; what follows up to the next script boundary is not run
+            idx = first + len(out)
+            result += out + ["hang"]
+            nxt = idx + 1
+            while nxt < len(lines) and lines[nxt] != "reset":
+                result.append("skipped-after-hang")
+                nxt += 1
+            first = nxt
+            continue
+        if rc != 0 or len(out) != n:
+            # the process died (abort, stack overflow, allocation failure): report what we have
+            out = (out + ["crash rc=%s" % rc] * (n - len(out)))[:n]
+        result += out
+        break
+    return result
 
 
 def run_model(lines, impl_obs, workdir, tag="model"):
@@ -208,6 +269,9 @@ def run_scripts(scripts, workdir, tag="run"):
         index.append((start, len(lines)))
     impl = run_impl(lines, workdir, tag)
     mobs, spec = run_model(lines, impl, workdir, tag)
+    for i, o in enumerate(impl):
+        if o == "hang":
+            spec[i] = "FAIL the implementation did not return from this operation within %d s (hang)" % STALL_S
     res = []
     for s, (a, b) in zip(scripts, index):
         res.append({"script": s, "impl": impl[a:b], "model": mobs[a:b], "spec": spec[a:b]})
@@ -245,6 +309,11 @@ def shrink(script, kind, workdir, max_runs=400):
         return script
     if kind == "spec":
         target[0] = r["spec"][p[1]][:32]
+        if r["impl"][p[1]] == "hang":
+            # the hang is established; further runs wait only briefly (operations take milliseconds)
+            global STALL_S
+            STALL_S = min(STALL_S, 6.0)
+            max_runs = min(max_runs, 60)
     ops = ops[: p[1] + 1]
     n = 2
     while len(ops) >= 2 and runs < max_runs:
